@@ -191,7 +191,60 @@ func classify(o string) string {
 	return "other"
 }
 
+// raceMode: the real, unrewritten Run with several workers on a tree of files with non-ASCII text and string
+// expressions, under the race detector; every generated file must also equal the single-worker result.
+func raceMode() {
+	scratch := os.Getenv("VERIF_SCRATCH")
+	root = filepath.Join(scratch, "racetree", "proj")
+	files := map[string]string{}
+	for i := 0; i < 10; i++ {
+		files[fmt.Sprintf("d%d/page%d.templ", i%3, i)] = fmt.Sprintf("package x\n\ntempl Page%d(s string) {\n\t<p title=\"é-%d\">héllo %d { s } ünd { \"ß%d\" + s }</p>\n\t<b>{ fmt.Sprint(%d) }</b>\n}\n", i, i, i, i, i)
+	}
+	gen := func(workers int) map[string]string {
+		os.RemoveAll(root)
+		for rel, c := range files {
+			write(rel, c)
+		}
+		if err := generatecmd.Run(context.Background(), quiet, generatecmd.Arguments{Path: root, WorkerCount: workers}); err != nil {
+			return map[string]string{"error": err.Error()}
+		}
+		out := map[string]string{}
+		filepath.Walk(root, func(p string, info os.FileInfo, err error) error {
+			if err == nil && !info.IsDir() && strings.HasSuffix(p, "_templ.go") {
+				rel, _ := filepath.Rel(root, p)
+				b, _ := os.ReadFile(p)
+				out[rel] = string(b)
+			}
+			return nil
+		})
+		return out
+	}
+	ref := gen(1)
+	mismatch := ""
+	rounds := 40
+	for r := 0; r < rounds && mismatch == ""; r++ {
+		got := gen(8)
+		for k, v := range ref {
+			if got[k] != v {
+				mismatch = fmt.Sprintf("round %d: %s generated with 8 workers differs from the single-worker result", r, k)
+			}
+		}
+		if len(got) != len(ref) {
+			mismatch = fmt.Sprintf("round %d: %d generated files with 8 workers, %d with one", r, len(got), len(ref))
+		}
+	}
+	os.RemoveAll(filepath.Join(scratch, "racetree"))
+	b, _ := json.Marshal(map[string]any{"files": len(files), "rounds": rounds, "workers": 8, "mismatch": mismatch})
+	os.WriteFile(filepath.Join(scratch, "race.json"), b, 0o644)
+}
+
 func main() {
+	for _, a := range os.Args[1:] {
+		if a == "race" {
+			raceMode()
+			return
+		}
+	}
 	run := vlib.Start("C15", "model_checking") // only for tier/seed parsing; the driver writes the evidence
 	scratch := os.Getenv("VERIF_SCRATCH")
 	root = filepath.Join(scratch, "schedtree", "proj")
